@@ -100,6 +100,7 @@ def verdict(prop, tier, seed, t0, proof, model_status, mons, corrs, stats, extra
         "print_assumptions_closed": proof.get("closed", 0),
         "axioms": proof.get("axioms", []),
         "proof_error": proof.get("error"),
+        "coqchk": proof.get("coqchk", "not run in this tier"),
         "proof_wall_s": proof.get("wall_s"),
         "model": model_status,
         "evaluations": stats.get("evaluations", 0),
@@ -132,7 +133,7 @@ def check(prop, tier, seed):
         return 2
     with C.Lock():
         model_status = C.regen_model()
-        proof = C.prove(prop)
+        proof = C.prove(prop, tier)
         # a module of the model that the property's theorems are about could not be regenerated at all
         # (the source does not parse): the theorems were checked against the committed model, not the code
         stale = [m for m in (C.gen_deps(prop) or []) if model_status.get(m, {}).get("status") in ("golden-fallback", "absent")]
